@@ -148,6 +148,22 @@ def victims(cx, chk, cfg, F):
             el = end_load(ev[3])
             g = F.fns.get(e.get("fn")) or f
             key = g["q"]
+            if el is None and ev[2][0] in ("L", "T"):
+                # a list built on this path (from_iter / clone filling a new cache): its chain is known exactly, (*tail).prev has been
+                # resolved to a concrete node. Replay attach / detach on that list: the victim must be the node at the tail end.
+                order = []
+                for ev2 in w.events_on:
+                    if ev2[0] >= ev[0]:
+                        break
+                    if ev2[2] == ev[2] and ev2[1] == "attach":
+                        order.insert(0, ev2[3])
+                    elif ev2[2] == ev[2] and ev2[1] == "detach" and ev2[3] in order:
+                        order.remove(ev2[3])
+                if order and order[-1] == ev[3]:
+                    if key not in seen:
+                        seen.add(key)
+                        chk.ob("C06.R2", "%s:%s|victim" % (cfg, key), "victim = (*tail).prev")
+                    continue
             if el is None or (el[2], el[1]) != ("tail", "prev") or el[0] != ev[2]:
                 chk.violation("C06.R2", "%s|victim" % key, "%s evicts %s, which is not the least-recent entry (*tail).prev of that list" % (g["q"], fmt_val(ev[3])[:60]),
                               g["span"]["file"], e.get("ln"), g["q"], ["root " + f["q"]], cfg)
